@@ -419,10 +419,13 @@ def str_lt(a, b, strict=True):
 
 
 def compare(op, a, b):
-    if op == 'is':
-        return a is b
-    if op == 'isnot':
-        return a is not b
+    if op in ('is', 'isnot'):
+        # a symbolic boolean stands for one of the two singletons True / False
+        sb, other = (a, b) if isinstance(a, SymBool) else ((b, a) if isinstance(b, SymBool) else (None, None))
+        if sb is not None and isinstance(other, bool):
+            r = sb if other else not_(sb)
+            return r if op == 'is' else not_(r)
+        return (a is b) if op == 'is' else (a is not b)
     if not (isinstance(a, Sym) or isinstance(b, Sym)):
         if op in ('in', 'notin') and deep_sym(b):
             pass
@@ -1069,6 +1072,15 @@ def m_zip(*xs):
     return zip(*[sx_iter(x) for x in xs])
 
 
+def m_map(f, *xs):
+    """map with symbolic operands: evaluated eagerly, through the instrumented call path"""
+    return iter([call(f, *args) for args in zip(*[sx_iter(x) for x in xs])])
+
+
+def m_filter(f, xs):
+    return iter([x for x in sx_iter(xs) if truth(call(f, x) if f is not None else x)])
+
+
 def m_reversed(x):
     if isinstance(x, SymStr):
         return iter([mkstr([c]) for c in reversed(x.items)])
@@ -1111,7 +1123,7 @@ def m_format(v, spec=''):
 
 MODELS.update({int: m_int, str: m_str, len: m_len, sum: m_sum, bool: m_bool, abs: m_abs, divmod: m_divmod,
                min: m_min, max: m_max, ord: m_ord, chr: m_chr, list: m_list, tuple: m_tuple, set: m_set,
-               sorted: m_sorted, enumerate: m_enumerate, zip: m_zip, reversed: m_reversed, any: m_any,
+               sorted: m_sorted, enumerate: m_enumerate, zip: m_zip, reversed: m_reversed, any: m_any, map: m_map, filter: m_filter,
                all: m_all, bytes: m_bytes, repr: m_repr, format: m_format,
                isinstance: m_isinstance, type: m_type, getattr: m_getattr, setattr: m_setattr,
                hasattr: m_hasattr, print: m_print})
@@ -1396,6 +1408,14 @@ def _mro_init(cls):
     return None
 
 
+ITER_CONSUMERS = {sum, min, max, any, all, sorted, list, tuple, set, enumerate, zip, reversed, map, filter}
+_ITER_TYPES = (types.GeneratorType, map, zip, filter, enumerate, reversed, type(iter([])), type(iter(())), type(iter({})), type(iter(set())))
+
+
+def _one_shot(a):
+    return isinstance(a, _ITER_TYPES)
+
+
 def call(f, *args, **kw):
     if isinstance(f, BoundModel):
         return f(*args, **kw)
@@ -1422,6 +1442,10 @@ def call(f, *args, **kw):
             return f(*args, **kw)
     except TypeError:
         model = None
+    if model is not None and args and f in ITER_CONSUMERS and any(_one_shot(a) for a in args):
+        # one-shot iterators (map objects, generator expressions, zip ...) may carry symbolic items that deep_sym cannot see:
+        # the modelled consumers (sum, min, max, any, all, sorted, list, ...) get them materialised
+        args = tuple(list(a) if _one_shot(a) else a for a in args)
     if model is not None and (f in ALWAYS_MODEL or deep_sym(args) or deep_sym(kw)):
         return model(*args, **kw)
     if isinstance(f, SxDispatch):
